@@ -312,6 +312,33 @@ def _scenarios(ctx, g):
         out.append(("spurious-refusal", "killed-holder-scenario", "lock not available after its holder was killed: %s" % fc))
     c.reap()
     ctx.case("scenario:killed-holder")
+    # 2b. hand-off while a waiter is polling: A holds, B is INSIDE its acquire loop (1.5 s timeout) when A leaves,
+    #     B then holds; C arriving while B is inside must be refused (the lock file must keep its identity)
+    d = fresh("handoff")
+    a = sched.spawn("A", d, g["inst"], ("hold",))
+    a.grant(); a.advance()                          # A inside
+    b = sched.spawn("B", d, g["inst"], ("hold",), lock_timeout=1.5)
+    b.grant()                                       # B starts acquiring and polls; do not wait for it
+    time.sleep(0.15)
+    fa = run_to_end(a)                              # A leaves while B polls
+    b.advance()                                     # B's acquire returns
+    if b.pending and b.pending["op"] == "in_cs":
+        c = sched.spawn("C", d, g["inst"], ("hold",))
+        c.grant(); c.advance()
+        if c.pending and c.pending["op"] == "in_cs":
+            out.append(("overlap", "handoff-scenario", "A held the lock, B waited inside acquire, A left and B got the lock; "
+                        "C then also entered `with CacheLock(dir)` while B is still inside"))
+            run_to_end(c)
+        elif (c.fin or {}).get("result") != "cacheerr":
+            out.append(("lock-error", "handoff-scenario", "C blocked by B ended with %s, expected CacheException" % c.fin))
+        c.reap()
+        fb = run_to_end(b)
+    else:
+        fb = b.fin or {"result": "died"}
+        out.append(("spurious-refusal", "handoff-scenario", "B waiting for A's lock (1.5 s timeout) did not get it after A left: %s" % fb))
+    for k in (a, b):
+        k.reap()
+    ctx.case("scenario:handoff")
     # 3. refresh interval: stamp ages (seconds before now) x expected
     from hed.schema import hed_cache_lock
     thr = hed_cache_lock.CACHE_TIME_THRESHOLD
